@@ -235,6 +235,62 @@ pub fn content_checks<G: Cv>(cap: usize, parties: usize, fixtures: Option<&Value
     (n, bad)
 }
 
+/// Many parties with a tiny capacity: pairwise distinctness across all parties (a party index
+/// that wraps makes two parties coincide), order, digests of selected parties and of the whole set.
+pub fn many_parties_check<G: Cv>(parties: usize, fixtures: Option<&Value>) -> (u64, Vec<(Value, String, String)>) {
+    let mut bad = vec![];
+    let cap = 2usize;
+    let g = BulletproofGens::<G>::new(cap, parties);
+    let gs: Vec<G> = g.G(cap, parties).cloned().collect();
+    let hs: Vec<G> = g.H(cap, parties).cloned().collect();
+    if gs.len() != cap * parties || hs.len() != cap * parties {
+        bad.push((json!({"curve": G::NAME, "check": "many parties view length", "parties": parties}), format!("{}", cap * parties), format!("{} / {}", gs.len(), hs.len())));
+        return (0, bad);
+    }
+    let mut enc: Vec<(Vec<u8>, String)> = vec![];
+    for j in 0..parties {
+        for i in 0..cap {
+            enc.push((pt_bytes(&gs[j * cap + i]), format!("G[{}][{}]", j, i)));
+            enc.push((pt_bytes(&hs[j * cap + i]), format!("H[{}][{}]", j, i)));
+        }
+    }
+    enc.sort();
+    for w in enc.windows(2) {
+        if w[0].0 == w[1].0 {
+            bad.push((json!({"curve": G::NAME, "check": "pairwise distinct across many parties", "generators": [w[0].1, w[1].1]}), "distinct".into(), "equal".into()));
+            if bad.len() > 4 {
+                break;
+            }
+        }
+    }
+    let r = <G::ScalarField as PrimeField>::MODULUS;
+    let wrong_order = gs.par_iter().chain(hs.par_iter()).filter(|p| p.is_zero() || !p.mul_bigint(r).into_affine().is_zero()).count();
+    if wrong_order > 0 {
+        bad.push((json!({"curve": G::NAME, "check": "order of generators of many parties"}), "all of order r".into(), format!("{} are not", wrong_order)));
+    }
+    if let Some(fx) = fixtures {
+        let f = &fx[G::NAME];
+        let mut chk = |name: String, got: String| {
+            let want = f[name.as_str()].as_str().unwrap_or("<missing in fixtures>").to_string();
+            if want != got {
+                bad.push((json!({"curve": G::NAME, "fixture": name}), format!("digest {}", want), format!("digest {}", got)));
+            }
+        };
+        for j in MANY_SELECTED {
+            if j < parties {
+                chk(format!("many/G/{}", j), digest(&gs[j * cap..(j + 1) * cap]));
+                chk(format!("many/H/{}", j), digest(&hs[j * cap..(j + 1) * cap]));
+            }
+        }
+        chk(format!("many/all/G/{}", parties), digest(&gs));
+        chk(format!("many/all/H/{}", parties), digest(&hs));
+    }
+    ((2 * cap * parties) as u64, bad)
+}
+pub const MANY_SELECTED: [usize; 8] = [4, 255, 256, 257, 299, 65535, 65536, 65537];
+pub const MANY_QUICK: usize = 300;
+pub const MANY_THOROUGH: usize = 65540;
+
 pub fn record_fixtures() -> i32 {
     let mut out = serde_json::Map::new();
     for curve in CURVES {
@@ -249,6 +305,19 @@ pub fn record_fixtures() -> i32 {
                     m.insert(format!("G/{}/{}", j, pre), json!(digest(&d.g[j][..pre])));
                     m.insert(format!("H/{}/{}", j, pre), json!(digest(&d.h[j][..pre])));
                 }
+            }
+            for parties in [MANY_QUICK, MANY_THOROUGH] {
+                let g = BulletproofGens::<G>::new(2, parties);
+                let gs: Vec<G> = g.G(2, parties).cloned().collect();
+                let hs: Vec<G> = g.H(2, parties).cloned().collect();
+                for j in MANY_SELECTED {
+                    if j < parties {
+                        m.insert(format!("many/G/{}", j), json!(digest(&gs[j * 2..(j + 1) * 2])));
+                        m.insert(format!("many/H/{}", j), json!(digest(&hs[j * 2..(j + 1) * 2])));
+                    }
+                }
+                m.insert(format!("many/all/G/{}", parties), json!(digest(&gs)));
+                m.insert(format!("many/all/H/{}", parties), json!(digest(&hs)));
             }
             m
         });
@@ -284,7 +353,7 @@ pub fn main(o: &Opts) -> i32 {
         let v: Value = serde_json::from_str(&std::fs::read_to_string(path).unwrap()).unwrap();
         println!("replay of C12 cases re-runs the quick check; case was: {}", v["case"]);
     }
-    rep.bounds = json!({"actions": ["new(c)/inc(c) for c in {0,1,2,3,4,7,8,16,33}", "serialize->deserialize"], "history_depth": depth, "parties": [1, 2, 3], "views": "(n,m) in [0,cap] x [0,parties], G and H", "large_instance": {"cap": big, "parties": 4}});
+    rep.bounds = json!({"actions": ["new(c)/inc(c) for c in {0,1,2,3,4,7,8,16,33}", "serialize->deserialize"], "history_depth": depth, "parties": [1, 2, 3], "views": "(n,m) in [0,cap] x [0,parties], G and H", "large_instance": {"cap": big, "parties": 4}, "many_parties_instance": {"cap": 2, "parties": if o.tier == Tier::Quick { MANY_QUICK } else { MANY_THOROUGH }}});
     rep.curves = CURVES.iter().map(|s| s.to_string()).collect();
     // stateright: enumerate the history machine once (it is curve independent)
     let m = GensMachine { depth };
@@ -334,6 +403,9 @@ pub fn main(o: &Opts) -> i32 {
                 }
             }
             let (n, b) = content_checks::<G>(big, 4, Some(&fixtures));
+            content_n += n;
+            bad.extend(b);
+            let (n, b) = many_parties_check::<G>(if o.tier == Tier::Quick { MANY_QUICK } else { MANY_THOROUGH }, Some(&fixtures));
             content_n += n;
             bad.extend(b);
             (nrep, nskip, views, bad, content_n)
